@@ -204,6 +204,57 @@ def gen_attr_programs():
     return progs
 
 
+def gen_bound_programs():
+    """W17.5: the where-clauses the derives generate for generic definitions are exactly what the fields require: an
+    instantiation whose field types support the traits compiles (no bound on a parameter that only occurs in a skipped
+    field / skipped variant / PhantomData), one that does not is rejected.  Each case = (definition, uses that must compile,
+    uses that must be rejected)."""
+    hdr = '#[derive(Encode, Decode)]\n#[codec(crate = ::parity_scale_codec)]\n'
+    aux = ('pub struct NoCodec;\n#[derive(Default)]\npub struct DefOnly;\n' + hdr + 'pub struct NoDef(u8);\n'
+           'fn enc<T: Encode>() {}\nfn dec<T: Decode>() {}\nfn mel<T: MaxEncodedLen>() {}\nfn trk<T: DecodeWithMemTracking>() {}\n')
+    cases = [
+        ('plain', hdr + 'pub struct G<T>(T, u8);\n', ['enc::<G<u8>>()', 'dec::<G<u8>>()', 'enc::<G<NoDef>>()'], ['enc::<G<NoCodec>>()', 'dec::<G<NoCodec>>()']),
+        ('nested', hdr + 'pub struct G<T>(Vec<T>, Option<(T, u8)>);\n', ['enc::<G<u16>>()', 'dec::<G<u16>>()'], ['enc::<G<NoCodec>>()', 'dec::<G<NoCodec>>()']),
+        ('named', hdr + 'pub struct G<T, U> { a: T, b: U }\n', ['enc::<G<u8, NoDef>>()', 'dec::<G<u8, NoDef>>()'], ['enc::<G<u8, NoCodec>>()', 'dec::<G<NoCodec, u8>>()']),
+        ('skip_field', hdr + 'pub struct G<T> { #[codec(skip)] a: T, b: u8 }\n', ['enc::<G<NoCodec>>()', 'enc::<G<DefOnly>>()', 'dec::<G<DefOnly>>()', 'dec::<G<u8>>()'],
+         ['dec::<G<NoCodec>>()', 'dec::<G<NoDef>>()']),
+        ('skip_tuple_field', hdr + 'pub struct G<T>(u8, #[codec(skip)] T);\n', ['enc::<G<NoCodec>>()', 'dec::<G<DefOnly>>()'], ['dec::<G<NoCodec>>()']),
+        ('phantom', hdr + 'pub struct G<T>(PhantomData<T>, u8);\n', ['enc::<G<NoCodec>>()', 'dec::<G<NoCodec>>()'], []),
+        ('compact', hdr + 'pub struct G<T: HasCompact> { #[codec(compact)] a: T, b: u8 }\n', ['enc::<G<u32>>()', 'dec::<G<u32>>()', 'enc::<G<u128>>()'], []),
+        ('compact_and_plain', hdr + 'pub struct G<T: HasCompact, U> { #[codec(compact)] a: T, b: U }\n', ['enc::<G<u64, u8>>()', 'dec::<G<u64, NoDef>>()'],
+         ['enc::<G<u64, NoCodec>>()', 'dec::<G<u64, NoCodec>>()']),
+        ('enum_plain', hdr + 'pub enum G<T, U> { A(T), B { x: U }, C }\n', ['enc::<G<u8, u16>>()', 'dec::<G<u8, NoDef>>()'], ['enc::<G<NoCodec, u8>>()', 'dec::<G<u8, NoCodec>>()']),
+        ('enum_skipped_variant', hdr + 'pub enum G<T, U> { A(T), #[codec(skip)] B(U), C }\n', ['enc::<G<u8, NoCodec>>()', 'dec::<G<u8, NoCodec>>()'],
+         ['enc::<G<NoCodec, u8>>()', 'dec::<G<NoCodec, u8>>()']),
+        ('enum_skipped_field', hdr + 'pub enum G<T, U> { A(T, #[codec(skip)] U), C }\n', ['enc::<G<u8, NoCodec>>()', 'dec::<G<u8, DefOnly>>()'],
+         ['dec::<G<u8, NoCodec>>()', 'enc::<G<NoCodec, DefOnly>>()']),
+        ('recursive', hdr + 'pub struct G<T> { a: T, next: Option<Box<G<T>>> }\n', ['enc::<G<u8>>()', 'dec::<G<u8>>()'], ['enc::<G<NoCodec>>()']),
+        ('where_clause', hdr + 'pub struct G<T> where T: Clone { a: T }\n', ['enc::<G<u8>>()', 'dec::<G<u8>>()'], ['enc::<G<DefOnlyClone>>()']),
+        ('lifetime', '#[derive(Encode)]\n#[codec(crate = ::parity_scale_codec)]\npub struct G<\'a, T> { a: &\'a T, b: &\'a [T] }\n', ['enc::<G<\'static, u8>>()'], ['enc::<G<\'static, NoCodec>>()']),
+        ('const_generic', hdr + 'pub struct G<T, const N: usize> { a: [T; N] }\n', ['enc::<G<u8, 4>>()', 'dec::<G<u8, 4>>()'], ['enc::<G<NoCodec, 4>>()']),
+        ('assoc_type', 'pub trait Tr { type A; }\npub struct Im;\nimpl Tr for Im { type A = u32; }\npub struct Bad;\nimpl Tr for Bad { type A = NoCodec; }\n' + hdr +
+         'pub struct G<T: Tr> { a: T::A }\n', ['enc::<G<Im>>()', 'dec::<G<Im>>()'], ['enc::<G<Bad>>()', 'dec::<G<Bad>>()']),
+        ('dumb', hdr + '#[codec(dumb_trait_bound)]\npub struct G<T>(PhantomData<T>, u8);\n', ['enc::<G<u8>>()', 'dec::<G<u8>>()'], ['enc::<G<NoCodec>>()', 'dec::<G<NoCodec>>()']),
+        ('custom_bounds', hdr + '#[codec(encode_bound(T: Default))]\n#[codec(decode_bound(T: Default))]\npub struct G<T>(PhantomData<T>, u8);\n',
+         ['enc::<G<DefOnly>>()', 'dec::<G<DefOnly>>()'], ['enc::<G<NoCodec>>()', 'dec::<G<NoCodec>>()']),
+        ('empty_bounds', hdr + '#[codec(encode_bound())]\n#[codec(decode_bound())]\npub struct G<T>(PhantomData<T>, u8);\n', ['enc::<G<NoCodec>>()', 'dec::<G<NoCodec>>()'], []),
+        ('mel_plain', '#[derive(Encode, MaxEncodedLen)]\n#[codec(crate = ::parity_scale_codec)]\npub struct G<T>(T, u8);\n', ['mel::<G<u8>>()'], ['mel::<G<Vec<u8>>>()']),
+        ('mel_skip', '#[derive(Encode, MaxEncodedLen)]\n#[codec(crate = ::parity_scale_codec)]\npub struct G<T> { #[codec(skip)] a: T, b: u8 }\n', ['mel::<G<Vec<u8>>>()', 'mel::<G<NoCodec>>()'], []),
+        ('mel_skip_params', '#[derive(Encode, MaxEncodedLen)]\n#[codec(crate = ::parity_scale_codec)]\n#[codec(mel_bound(skip_type_params(T)))]\npub struct G<T>(PhantomData<T>, u8);\n', ['mel::<G<NoCodec>>()'], []),
+        ('track_plain', '#[derive(Encode, Decode, DecodeWithMemTracking)]\n#[codec(crate = ::parity_scale_codec)]\npub struct G<T>(T, u8);\n', ['trk::<G<u8>>()', 'trk::<G<Vec<u8>>>()'], ['trk::<G<NoDef>>()']),
+        ('track_skip', '#[derive(Encode, Decode, DecodeWithMemTracking)]\n#[codec(crate = ::parity_scale_codec)]\npub struct G<T> { #[codec(skip)] a: T, b: u8 }\n', ['trk::<G<DefOnly>>()'], []),
+    ]
+    aux2 = '#[derive(Default, Clone)]\npub struct DefOnlyClone;\n'
+    progs = []
+    for name, defn, ok_uses, bad_uses in cases:
+        progs.append({'name': 'bound_%s_ok' % name, 'kind': 'bounds', 'expect': 'accept',
+                      'body': aux + aux2 + defn + 'pub fn f() { %s }\n' % ' '.join(u + ';' for u in ok_uses)})
+        for i, u in enumerate(bad_uses):
+            progs.append({'name': 'bound_%s_bad%d' % (name, i), 'kind': 'bounds', 'expect': 'reject',
+                          'body': aux + aux2 + defn + 'pub fn f() { %s; }\n' % u})
+    return progs
+
+
 RESERVED = re.compile(r'^__codec_\w+_edqy$|^__Codec\w+Edqy$')
 
 
@@ -234,6 +285,7 @@ def gen_hygiene_programs(fx):
 
 
 def run(cx, out):
+    out.rule('W17.5', 'generated where-clauses: instantiations whose field types support the traits compile, others are rejected (skipped fields / variants, PhantomData, compact, custom bounds)')
     out.rule('W17.4', 'hygiene: a user constant named like any item the generated code declares is still the one a discriminant refers to')
     out.rule('W17.1', 'enum index programs: verdict of the front end == independent index rule; errors located in the definition')
     out.rule('W17.2', 'variant-count, attribute-conflict, union, CompactAs-shape programs and their twins')
@@ -248,12 +300,12 @@ def run(cx, out):
         return
     hyg, hyg_names = gen_hygiene_programs(fx)
     out.floor('W17.4', 'value items declared by generated code (names probed)', len(hyg_names), 5)
-    progs = gen_enum_programs(cx.tier, cx.seed) + gen_count_programs() + gen_attr_programs() + hyg
+    progs = gen_enum_programs(cx.tier, cx.seed) + gen_count_programs() + gen_attr_programs() + hyg + gen_bound_programs()
     witness.run_programs(progs, cx.tier)
     out.units.add('witness programs (rustc --emit=metadata) against artefacts of the current tree')
     n_rej = n_acc = 0
     for p in progs:
-        rule = {'enum-index': 'W17.1', 'decode-finished': 'W17.3', 'marker': 'W17.3', 'hygiene': 'W17.4'}.get(p['kind'], 'W17.2')
+        rule = {'enum-index': 'W17.1', 'decode-finished': 'W17.3', 'marker': 'W17.3', 'hygiene': 'W17.4', 'bounds': 'W17.5'}.get(p['kind'], 'W17.2')
         errs = p['errors']
         key = '%s (%s)' % (p['name'], p['kind'])
         if p['expect'] == 'accept':
